@@ -2,7 +2,11 @@
    Abstract view: the buffer is an infinite bit string [bits_of b k] (bit k mod 16 of word k / 16).
    * [cbl_get_bits]  : Get reads exactly the bits [i*u, (i+1)*u) (0 when the window is not inside the buffer);
    * [set_loop_bits] : the Set loop writes exactly those bits with the bits of v, every other bit is unchanged;
-   * [compact_bitlist_get_set*] : the combination.  No axioms. *)
+   * [compact_bitlist_get_set_inrange] : the combination under the original hypotheses (frame for every j
+     whose window is inside the old buffer, or outside the new one);
+   * [compact_bitlist_get_set] : full frame for every j, under (and re-establishing) [tail_clean];
+   * [compact_bitlist_get_set_as_stated_false] : the unrestricted frame without [tail_clean] is refuted.
+   No axioms. *)
 From Coq Require Import List NArith Bool Lia ZArith ZifyBool ZifyN ZifyNat.
 From Dae Require Import C11_Louds.
 Import ListNotations.
@@ -334,3 +338,182 @@ Proof.
         -- assert (E2 : (q + (16 - utt' - off') <? 16) = false) by lia.
            rewrite E2. reflexivity.
 Qed.
+(* ---------- growByUnitIndex ---------- *)
+Lemma nthN_app_zeros : forall b n k, nthN (b ++ repeat 0 n) k = nthN b k.
+Proof.
+  intros. unfold nthN. destruct (Nat.lt_ge_cases (N.to_nat k) (length b)) as [L|L].
+  - apply app_nth1. assumption.
+  - rewrite app_nth2 by assumption. rewrite nth_repeat. rewrite nth_overflow by assumption. reflexivity.
+Qed.
+
+Lemma cbl_grow_spec : forall b u i, wf16 b ->
+  let b' := cbl_grow b u i in
+  wf16 b' /\ (i + 1) * u <= blen b' * 16 /\ (forall k, bits_of b' k = bits_of b k) /\
+  (blen b' = blen b \/ (blen b * 16 < (i + 1) * u /\ blen b <= blen b')).
+Proof.
+  intros b u i Hb. unfold cbl_grow. fold (blen b). cbv zeta.
+  destruct (N.ltb_spec (blen b * 16) ((i + 1) * u)) as [L|L].
+  - set (bd := (i + 1) * u) in *.
+    set (need := bd / 16 + (if bd mod 16 =? 0 then 0 else 1)).
+    assert (Hn : bd <= need * 16 /\ blen b < need).
+    { unfold need. destruct (N.eqb_spec (bd mod 16) 0); lia. }
+    assert (Hl : blen (b ++ repeat 0 (N.to_nat (need - blen b))) = need).
+    { unfold blen. rewrite app_length, repeat_length. fold (blen b). unfold blen in *. lia. }
+    split; [|split; [|split]].
+    + unfold wf16. apply Forall_app. split; [assumption|].
+      apply Forall_forall. intros x Hx. apply repeat_spec in Hx. subst x. reflexivity.
+    + rewrite Hl. lia.
+    + intro k. unfold bits_of. rewrite nthN_app_zeros. reflexivity.
+    + right. rewrite Hl. lia.
+  - split; [assumption|]. split; [assumption|]. split; [reflexivity|]. left. reflexivity.
+Qed.
+
+(* ---------- Set, bit-string level ---------- *)
+Lemma cbl_set_bits : forall m i v m', 1 <= c_unit m <= 64 -> wf16 (c_buf m) ->
+  cbl_set m i v = Some m' ->
+  c_unit m' = c_unit m /\ wf16 (c_buf m') /\
+  (i + 1) * c_unit m <= blen (c_buf m') * 16 /\
+  (blen (c_buf m') = blen (c_buf m) \/
+   (blen (c_buf m) * 16 < (i + 1) * c_unit m /\ blen (c_buf m) <= blen (c_buf m'))) /\
+  forall k, bits_of (c_buf m') k =
+    if (i * c_unit m <=? k) && (k <? i * c_unit m + c_unit m)
+    then N.testbit v (k - i * c_unit m) else bits_of (c_buf m) k.
+Proof.
+  intros [u b n] i v m' Hu Hb. cbn [c_unit c_buf] in *. unfold cbl_set. cbn [c_unit c_buf c_num].
+  destruct (u <? N.size v); [discriminate|].
+  destruct (cbl_grow_spec b u i Hb) as (G1 & G2 & G3 & G4).
+  set (g := cbl_grow b u i) in *. set (p := i * u) in *.
+  set (r := set_loop 6 g (p / 16) (p mod 16) v u).
+  intro E. injection E as E. subst m'. cbn [c_unit c_buf]. subst r.
+  destruct (set_loop_bits 6 g (p / 16) (p mod 16) v u) as (S1 & S2 & S3); try assumption; try lia.
+  split; [reflexivity|]. split; [assumption|]. rewrite S1. split; [lia|]. split; [assumption|].
+  intro k. rewrite S3, G3. replace (p / 16 * 16 + p mod 16) with p by lia. reflexivity.
+Qed.
+
+(* ---------- Get after Set ---------- *)
+Lemma mul_window_disjoint : forall i j u q k, j <> i -> q < u -> k < u -> j * u + q <> i * u + k.
+Proof.
+  intros i j u q k Hji Hq Hk.
+  destruct (N.lt_ge_cases j i) as [L|L].
+  - assert ((j + 1) * u <= i * u) by (apply N.mul_le_mono_r; lia). lia.
+  - assert ((i + 1) * u <= j * u) by (apply N.mul_le_mono_r; lia). lia.
+Qed.
+
+(* bits beyond the last whole unit that fits into the buffer are zero (true of the empty buffer and
+   preserved by Set): without it a unit that straddles the end of the old buffer reads 0 before a
+   growing Set and its (stale) bits afterwards. *)
+Definition tail_clean (m : cbl) : Prop :=
+  forall k, blen (c_buf m) * 16 / c_unit m * c_unit m <= k -> bits_of (c_buf m) k = false.
+
+Lemma tail_clean_new : forall u, tail_clean (cbl_new u).
+Proof. intros u k _. unfold bits_of, nthN. cbn [cbl_new c_buf]. destruct (N.to_nat (k / 16)); reflexivity. Qed.
+
+Theorem compact_bitlist_get_set_inrange :
+  forall m i v m', 1 <= c_unit m <= 64 -> Forall (fun x => x < 65536) (c_buf m) -> v < 2 ^ c_unit m ->
+    cbl_set m i v = Some m' ->
+    cbl_get m' i = v /\
+    (forall j, j <> i -> (j + 1) * c_unit m <= N.of_nat (length (c_buf m)) * 16 -> cbl_get m' j = cbl_get m j) /\
+    (forall j, j <> i -> N.of_nat (length (c_buf m')) * 16 < (j + 1) * c_unit m -> cbl_get m' j = cbl_get m j) /\
+    c_unit m' = c_unit m /\ Forall (fun x => x < 65536) (c_buf m').
+Proof.
+  intros m i v m' Hu Hb Hv Hs.
+  destruct (cbl_set_bits m i v m' Hu Hb Hs) as (U & W & R & G & B).
+  fold (blen (c_buf m)) (blen (c_buf m')). set (u := c_unit m) in *.
+  split; [|split; [|split; [|split]]]; try assumption.
+  - apply N.bits_inj. intro q. rewrite cbl_get_bits; rewrite ?U; try assumption.
+    fold u. rewrite B. destruct (N.ltb_spec q u) as [Q|Q]; cbn [andb].
+    + assert (E : (i * u <=? i * u + q) && (i * u + q <? i * u + u) = true) by lia.
+      rewrite E. f_equal. lia.
+    + symmetry. apply (tb_lt_pow2 v u); assumption.
+  - intros j Hj Hin. apply N.bits_inj. intro q.
+    rewrite !cbl_get_bits; rewrite ?U; try assumption; fold u.
+    + destruct (N.ltb_spec q u) as [Q|Q]; cbn [andb]; [|reflexivity]. rewrite B.
+      assert (E : (i * u <=? j * u + q) && (j * u + q <? i * u + u) = false).
+      { destruct ((i * u <=? j * u + q) && (j * u + q <? i * u + u)) eqn:E; [|reflexivity].
+        exfalso. apply (mul_window_disjoint i j u q (j * u + q - i * u) Hj Q); lia. }
+      rewrite E. reflexivity.
+    + destruct G as [G|G]; lia.
+  - intros j Hj Hout. rewrite !cbl_get_out; fold u; rewrite ?U; fold u; try reflexivity; try assumption.
+    destruct G as [G|G]; lia.
+Qed.
+(* The frame conjunct of the goal statement is false for an arbitrary well-formed buffer: a unit that
+   straddles the end of the old buffer reads 0 before a growing Set and its stale bits afterwards. *)
+Lemma compact_bitlist_frame_counterexample :
+  let m := {| c_unit := 3; c_buf := [32768]; c_num := 5 |} in
+  exists m', (1 <= c_unit m <= 64) /\ Forall (fun x => x < 65536) (c_buf m) /\ 0 < 2 ^ c_unit m /\
+    cbl_set m 6 0 = Some m' /\ 5 <> 6 /\ cbl_get m 5 = 0 /\ cbl_get m' 5 = 1.
+Proof.
+  cbv zeta. eexists. split; [cbn; lia|]. split; [repeat constructor|]. split; [reflexivity|].
+  split; [vm_compute; reflexivity|]. split; [discriminate|]. split; vm_compute; reflexivity.
+Qed.
+
+(* the goal statement exactly as first posed is refuted by that instance *)
+Lemma compact_bitlist_get_set_as_stated_false :
+  ~ (forall m i v m', 1 <= c_unit m <= 64 -> Forall (fun x => x < 65536) (c_buf m) -> v < 2 ^ c_unit m ->
+       cbl_set m i v = Some m' ->
+       cbl_get m' i = v /\ (forall j, j <> i -> cbl_get m' j = cbl_get m j)
+       /\ c_unit m' = c_unit m /\ Forall (fun x => x < 65536) (c_buf m')).
+Proof.
+  intro H. destruct compact_bitlist_frame_counterexample as (m' & H1 & H2 & H3 & H4 & H5 & H6 & H7).
+  destruct (H _ _ _ _ H1 H2 H3 H4) as (_ & F & _). specialize (F 5 H5). rewrite H6, H7 in F. discriminate.
+Qed.
+
+(* the true statement: with the (reachable, preserved) tail invariant the frame holds for every j *)
+Theorem compact_bitlist_get_set :
+  forall m i v m', 1 <= c_unit m <= 64 -> Forall (fun x => x < 65536) (c_buf m) -> tail_clean m ->
+    v < 2 ^ c_unit m ->
+    cbl_set m i v = Some m' ->
+    cbl_get m' i = v /\ (forall j, j <> i -> cbl_get m' j = cbl_get m j)
+    /\ c_unit m' = c_unit m /\ Forall (fun x => x < 65536) (c_buf m') /\ tail_clean m'.
+Proof.
+  intros m i v m' Hu Hb Ht Hv Hs.
+  destruct (compact_bitlist_get_set_inrange m i v m' Hu Hb Hv Hs) as (A1 & A2 & A3 & A4 & A5).
+  destruct (cbl_set_bits m i v m' Hu Hb Hs) as (U & W & R & G & B).
+  unfold tail_clean in *. rewrite ?U. fold (blen (c_buf m)) (blen (c_buf m')) in *.
+  set (u := c_unit m) in *. set (L := blen (c_buf m)) in *. set (L' := blen (c_buf m')) in *.
+  split; [assumption|]. split; [|split; [reflexivity|split; [assumption|]]].
+  - intros j Hj. destruct (N.le_gt_cases ((j + 1) * u) (L * 16)) as [In|Out]; [apply A2; assumption|].
+    rewrite (cbl_get_out m j) by assumption.
+    destruct (N.le_gt_cases ((j + 1) * u) (L' * 16)) as [In'|Out'].
+    2:{ apply cbl_get_out. rewrite U. assumption. }
+    apply N.bits_inj. intro q. rewrite N.bits_0.
+    rewrite cbl_get_bits; rewrite ?U; try assumption. fold u.
+    destruct (N.ltb_spec q u) as [Q|Q]; cbn [andb]; [|reflexivity]. rewrite B.
+    assert (E : (i * u <=? j * u + q) && (j * u + q <? i * u + u) = false).
+    { destruct ((i * u <=? j * u + q) && (j * u + q <? i * u + u)) eqn:E; [|reflexivity].
+      exfalso. apply (mul_window_disjoint i j u q (j * u + q - i * u) Hj Q); lia. }
+    rewrite E. apply Ht.
+    assert (D : L * 16 / u < j + 1) by (apply N.div_lt_upper_bound; lia).
+    assert (M : L * 16 / u * u <= j * u) by (apply N.mul_le_mono_r; lia). lia.
+  - intros k Hk. rewrite B.
+    assert (D : i + 1 <= L' * 16 / u) by (apply N.div_le_lower_bound; lia).
+    assert (M : (i + 1) * u <= L' * 16 / u * u) by (apply N.mul_le_mono_r; assumption).
+    assert (E : (i * u <=? k) && (k <? i * u + u) = false) by lia. rewrite E.
+    destruct G as [G|G].
+    + apply Ht. fold L. rewrite <- G. assumption.
+    + apply bits_of_hi; [assumption|]. fold L. lia.
+Qed.
+
+(* iterated form: the invariant of cbl_of_list / cbl_append *)
+Definition cbl_inv (m : cbl) : Prop :=
+  1 <= c_unit m <= 64 /\ Forall (fun x => x < 65536) (c_buf m) /\ tail_clean m.
+
+Lemma cbl_inv_new : forall u, 1 <= u <= 64 -> cbl_inv (cbl_new u).
+Proof. intros u Hu. split; [assumption|]. split; [constructor|apply tail_clean_new]. Qed.
+
+Corollary cbl_inv_set : forall m i v m', cbl_inv m -> cbl_set m i v = Some m' ->
+  cbl_inv m' /\ cbl_get m' i = v /\ forall j, j <> i -> cbl_get m' j = cbl_get m j.
+Proof.
+  intros m i v m' (Hu & Hb & Ht) Hs.
+  assert (Hv : v < 2 ^ c_unit m).
+  { unfold cbl_set in Hs. destruct (N.ltb_spec (c_unit m) (N.size v)); [discriminate|].
+    eapply N.lt_le_trans; [apply N.size_gt|]. apply N.pow_le_mono_r; [discriminate|assumption]. }
+  destruct (compact_bitlist_get_set m i v m' Hu Hb Ht Hv Hs) as (A & B & C & D & E).
+  split; [|split; assumption]. split; [rewrite C; assumption|]. split; assumption.
+Qed.
+
+Print Assumptions compact_bitlist_get_set.
+Print Assumptions compact_bitlist_get_set_inrange.
+Print Assumptions compact_bitlist_frame_counterexample.
+Print Assumptions cbl_inv_set.
+Print Assumptions compact_bitlist_get_set_as_stated_false.
